@@ -19,8 +19,8 @@ from harness.impl import fordrun as F
 from harness.impl import fstrace
 
 IMPORTS = "From Coq Require Import NArith.\nFrom Ford Require Import Base.Str Out.FsModel Corr.C19."
-THEOREMS = ["C19_targets_confined", "C19_refuted", "C19_refuted_copy_subdir", "C19_refuted_page_location",
-            "C19_prefix_safe", "C19_confined_is_safe", "C19_prefix_safe_refuted", "C19_prefix_safe_eq",
+THEOREMS = ["C19_targets_confined", "C19_page_locations_inside", "C19_former_witness_copy_subdir",
+            "C19_former_witness_ordered_subpage", "C19_prefix_safe", "C19_prefix_safe_eq",
             "C19_op_local", "C19_refusal", "C19_refusal_exact", "C19_no_source_deleted",
             "C19_discovered_sources_kept", "C19_out_clean"]
 PKG = "<ford>"
@@ -373,16 +373,27 @@ def proj_term(canon, docs):
     sf = [(canon.comps(os.path.normpath(str(f.path))), str(f.name)) for f in docs.project.allfiles] \
         if docs.data.get("incl_src") else []
     gn = graph_names(docs)
+    # candidate pages: every page FORD built (its names are the components of its location, plus
+    # the .md file name for a page that is not an index), and every ordered_subpage entry that the
+    # loop of get_page_tree must skip -- the model decides again which of them become pages
     pages = []
     for p in docs.pagetree:
         n = p.obj
         loc = [c for c in pathlib.PurePosixPath(str(n.location)).parts]
+        stem = str(n.filename.stem)
+        is_index = stem == "index"
+        entries = loc if is_index else loc + [stem + ".md"]
         cps = []
         for it in n.copy_subdir:
             a, c = canon.rpath(os.fspath(it))
             cps.append(f"(rp {coq_bool(a)} {coq_path(c)})")
-        pages.append(f"(pg {coq_path(loc)} {coq_str(str(n.filename.stem))} {coq_list(cps)} "
+        pages.append(f"(cd {coq_path(entries)} {coq_bool(is_index)} {coq_str(stem)} {coq_list(cps)} "
                      f"{coq_list(coq_str(str(f)) for f in n.files)})")
+        if is_index:
+            for e in n.ordered_subpages:
+                e = str(e)
+                if e and ("/" in e or e[0] == "." or e[-1] == "~"):
+                    pages.append(f"(cd {coq_path(loc + [e])} false {coq_str('skipped')} [] [])")
     pt = ("{| p_docs := %s; p_lists := %s; p_srcfiles := %s; p_graphs := %s |}" % (
         coq_list(f"({coq_str(d)}, {coq_str(i)})" for d, i in dl), coq_list(coq_str(x) for x in ll),
         coq_list(f"({coq_path(c)}, {coq_str(n)})" for c, n in sf), coq_list(coq_str(x) for x in gn)))
@@ -466,7 +477,7 @@ class Cases:
                 f"Definition k{i}_ops : list op := {ops_term(ops)}.",
                 f"Definition k{i}_post_n : list (path * node) := {post_n_t}.",
                 f"Definition k{i}_post_m : list (path * meta) := {post_m_t}.",
-                f"Definition k{i}_pages : list page := {pages}."]
+                f"Definition k{i}_pages : list cand := {pages}."]
         term = ("(Build_case %d %s %s %s\n  (%s)\n  (%s)\n  %s\n  %s pkgfs %s\n  %s %s %s %s %s\n  %s\n  %s %s\n  %s\n  %s)" % (
             mode, coq_list(f"({coq_path(a)}, {coq_path(b)})" for a, b in sbx.links()),
             coq_path(canon.comps(str(sbx.proj))), coq_path((PKG,)), rcfg_term(canon, sbx.sc), pt, f"k{i}_pages",
@@ -543,15 +554,20 @@ def fault_runs(chk, cases, ids, rng, sbx, settings, docs, sp, nfaults, only=None
             chk.extra["faults_injected"] = chk.extra.get("faults_injected", 0) + 1
 
 
-def finding_scenarios():
-    """the two recorded defects, as scenarios (replayed on the implementation on every run)"""
+def regression_scenarios():
+    """the witnesses of the two repaired defects (known_findings.d/C19.json, fixed): a page's
+    copy_subdir: ../../shared used to be copied to <project>/shared, ordered_subpage:
+    sub/../../../note.md used to be written to <project>/note.html.  Ordinary inputs now: if a
+    defect returns, the run is a failing input."""
     base = {"output_dir": "./doc", "src_dir": ["./src"], "page_dir": "./pages", "graph": "false",
             "search": "false", "incl_src": "false", "externalize": "false"}
     mk = lambda name, top, sub: {"name": name, "opts": dict(base), "links": [], "extra": {}, "dirs": [],
                                  "refuse": False, "topmeta": top, "submeta": sub, "fortran": None, "cli": {}}
-    return {"page-copy-subdir-escape": mk("finding-copy-subdir", "copy_subdir: ../../shared\n", ""),
-            "page-ordered-subpage-escape": mk("finding-ordered-subpage",
-                                              "ordered_subpage: sub/../../../note.md\n", "")}
+    return [mk("regression-copy-subdir-escape", "copy_subdir: ../../shared\n", ""),
+            mk("regression-copy-subdir-escape-from-subpage", "", "copy_subdir: ../../../shared\n    data\n"),
+            mk("regression-ordered-subpage-escape", "ordered_subpage: sub/../../../note.md\n", ""),
+            mk("regression-ordered-subpage-dotdot-and-nested",
+               "ordered_subpage: ../../note.md\n    sub/a.md\n    sub\n", "")]
 
 
 def exclusion_check(chk, rng):
@@ -615,30 +631,19 @@ def explain(chk, cases, idx, common):
     return chk.coq_eval(IMPORTS, f"explain k{idx}", defs=common + "\n" + cases.case_defs[idx])
 
 
-FINDING_REGION = {1: "page-copy-subdir-escape", 2: "page-ordered-subpage-escape"}
-
-
 def verdicts(chk, cases, res, defs):
-    seen_known = set()
     explained = 0
     for idx, code in sorted(res.items()):
         info = dict(cases.info[idx])
-        region = code >> 2
         if code & 2:
-            keys = [k for bit, k in FINDING_REGION.items() if region & bit]
             chk.disagreements += 1
-            if keys and not (code & 1) and all(chk.known(k, True) for k in keys):
-                seen_known.update(keys)
-                continue
         if code & 3 == 0:
             continue
         if explained < 2:
             explained += 1
             info["model"] = explain(chk, cases, idx, defs)[-6000:]
-        info.update({"code": code, "meaning": "bit0 model!=impl, bit1 impl violates confinement/refusal, "
-                                              "bits>=2 known region"})
+        info.update({"code": code, "meaning": "bit0 model!=impl, bit1 impl violates confinement/refusal"})
         chk.violation("failing-input" if code & 2 else "broken-correspondence", info, bool(code & 2))
-    return seen_known
 
 
 def run(chk):
@@ -701,11 +706,9 @@ def run(chk):
         sc["name"] = "cli-override " + o
         sc["cli"] = {"output_dir": o}
         run_sc(sc)
-    # (3) the recorded findings, replayed on the implementation
-    replayed = {}
-    for key, sc in finding_scenarios().items():
-        r = run_sc(sc, label="finding")
-        replayed[key] = len(cases.terms) - 1
+    # (3) the witnesses of the repaired defects, as regression inputs
+    for sc in regression_scenarios():
+        run_sc(sc, label="regression")
     lap("cli+findings")
     # (4) untraced child-process runs
     subs = []
@@ -726,11 +729,7 @@ def run(chk):
     if res is None:
         return
     chk.traces += len(cases.terms)
-    known_seen = verdicts(chk, cases, res, defs)
-    for key, idx in replayed.items():
-        still = bool(res.get(idx, 0) & 2)
-        chk.known(key, still)
-        chk.extra.setdefault("findings_replayed", {})[key] = still
+    verdicts(chk, cases, res, defs)
     chk.extra["cases_judged"] = len(cases.terms)
     chk.extra["codes"] = {str(c): sum(1 for v in res.values() if v == c) for c in sorted(set(res.values()))}
 
